@@ -267,7 +267,7 @@ func variant(r *vh.Rng, seed Case) Case {
 					}
 				}
 				c.Ext = &x
-				if externallyManaged(&c) && c.Kind != "page" {
+				if resolverPaginates(&c) && c.Kind != "page" {
 					c.Kind = "page"
 				}
 			}
@@ -282,7 +282,7 @@ func variant(r *vh.Rng, seed Case) Case {
 				c.Ext = &ExtInfo{Total: p64(int64(len(c.Items))), ApplyTextFilter: true, SetPageInfo: r.Bool()}
 				c.Fallback = c.Field == "dualI" && r.Bool()
 			}
-			if externallyManaged(&c) && c.Kind != "page" {
+			if resolverPaginates(&c) && c.Kind != "page" {
 				c.Kind = "page"
 			}
 		case 14: // move every numeric sort value next to a boundary of a narrower / lossy representation
